@@ -328,9 +328,10 @@ def geometry_no_worse(name, s, const, g, curv):
 
 def cauchy_geometry_improves(s, const, g, curv, xl, xu, delta):
     """If a feasible first-order improving direction exists, |q| must grow
-    strictly (decided for const = 0)."""
+    strictly (const = 0: always decided; const != 0: decided when a gain
+    far above one ulp of |const| is available along the improving ray)."""
     col = _col()
-    if col is None or const != 0.0:
+    if col is None:
         return True
     s = _f(s)
     g = _f(g)
@@ -338,6 +339,39 @@ def cauchy_geometry_improves(s, const, g, curv, xl, xu, delta):
         return True
     lo = np.minimum(_f(xl), 0.0)
     hi = np.maximum(_f(xu), 0.0)
+    if const != 0.0:
+        # const != 0: the first-order gain may be below one ulp of |const|,
+        # so the clause is only decided when a LARGE gain is available along
+        # the feasible part of the ray t * sign(const) * g (first-order
+        # improving by construction): then the zero gain of the returned
+        # step cannot be blamed on representability
+        d = float(np.sign(const)) * g
+        d = np.where(((d > 0) & (hi <= 0)) | ((d < 0) & (lo >= 0)), 0.0, d)
+        nd = float(np.linalg.norm(d))
+        if not (nd > 0 and np.isfinite(nd) and np.isfinite(const)):
+            return True
+        with np.errstate(divide="ignore", invalid="ignore"):
+            lim = np.where(d > 0, hi / d, np.where(d < 0, lo / d, np.inf))
+        t_max = min(float(np.min(lim)), delta / nd)
+        if not (np.isfinite(t_max) and t_max > 0):
+            return True
+        cd = float(curv(d))
+        ref = max(abs(const + t * float(g @ d) + 0.5 * t * t * cd)
+                  for t in (t_max, 0.5 * t_max, 0.1 * t_max))
+        if not (np.isfinite(ref) and ref > abs(const) * (1 + 1e-6)):
+            return True
+        col.tags.add("improving_direction_exists_const")
+        qs = const + float(g @ s) + 0.5 * float(curv(s))
+        if not abs(qs) > abs(const):
+            col.bad("C16", "cauchy_geometry_no_progress",
+                    f"cauchy_geometry returned a step with |q(s)|="
+                    f"{abs(qs)!r} <= |const|={abs(const)!r} although "
+                    f"|q|={ref!r} is reached along the feasible first-order "
+                    f"improving ray sign(const)*g (g={g.tolist()}, box "
+                    f"[{lo.tolist()}, {hi.tolist()}], delta={delta!r})",
+                    mechanism="cauchy_geometry_zero_step:const",
+                    g=g, xl=lo, xu=hi, delta=delta, s=s, const=const)
+        return True
     room_up = np.minimum(hi, delta)
     room_dn = np.minimum(-lo, delta)
     gain = np.abs(g) * np.maximum(room_up, room_dn)
@@ -843,6 +877,28 @@ def fuzz_inputs(rng):
         beq = np.zeros(0)
         bubn = rng.standard_normal(m) * scale
     const = float(rng.standard_normal()) if rng.random() < 0.35 else 0.0
+    if rng.random() < 0.05:
+        # structured family for the GEOMETRY solvers: a constant term that
+        # dominates the linear term by 13..16 decades (|g|*delta against
+        # |const|) while the curvature is of the order of the constant: a
+        # first-order improving direction exists and moving along it changes
+        # |q| through the curvature
+        tags.append("const_dominates_gradient")
+        const = float(rng.choice([-1.0, 1.0]) * 10.0 ** rng.uniform(-1, 1))
+        delta = float(scale * rng.choice([0.5, 1.0, 2.0]))
+        g = rng.choice([-1.0, 1.0], n) * rng.uniform(0.5, 2.0, n) \
+            * abs(const) / delta * 10.0 ** rng.uniform(-16, -13)
+        hd = rng.uniform(0.5, 2.0, n) * abs(const) / delta ** 2
+        h = np.diag(hd) * float(np.sign(const))
+        xl = -delta * rng.uniform(0.0, 0.5, n) * (rng.random(n) < 0.5)
+        xu = delta * rng.uniform(0.2, 0.6, n)
+        m = 0
+        aub = np.zeros((0, n))
+        bub = np.zeros(0)
+        bubn = np.zeros(0)
+        me = 0
+        aeq = np.zeros((0, n))
+        beq = np.zeros(0)
     npt = int(rng.integers(1, 2 * n + 2))
     xpt = rng.standard_normal((n, npt)) * scale
     if rng.random() < 0.15:
